@@ -60,6 +60,10 @@ def members():
             if cls == "QubitUnitary" and sname == "supports_broadcasting":
                 pairs.append((sname, "QubitUnitary"))
                 continue
+            if cls == "ControlledQubitUnitary" and sname == "supports_broadcasting":
+                for v in ("cv=1", "cv=0", "2 controls cv=(0,1)", "2 controls cv=(1,0), controls after target"):
+                    pairs.append((sname, f"ControlledQubitUnitary[{v}]"))
+                continue
             if not insts:
                 unsup.append((sname, m))
                 continue
@@ -140,6 +144,37 @@ def work(item):
             return [obl.prove(S, f"{name}: batched matrix == stack of elements (symbolic entries)", v[0], v[1], twin=False)]
 
         return obl.run_instance(name, build, consume)
+    if key.startswith("ControlledQubitUnitary["):
+        variant = key[len("ControlledQubitUnitary["):-1]
+        cfg = {"cv=1": ([1, 0], [1]), "cv=0": ([1, 0], [0]), "2 controls cv=(0,1)": ([1, 2, 0], [0, 1]), "2 controls cv=(1,0), controls after target": ([2, 0, 1], [1, 0])}[variant]
+        cw, cv = cfg
+        order = sorted(cw)
+
+        def cqu(U):
+            return qp.ControlledQubitUnitary(U, wires=cw, control_values=cv, unitary_check=False) if "unitary_check" in qp.ControlledQubitUnitary.__init__.__code__.co_varnames else qp.ControlledQubitUnitary(U, wires=cw, control_values=cv)
+
+        def build(S):
+            U = np.array([[[S.cplx(f"u{b}{r}{c}") for c in range(2)] for r in range(2)] for b in range(2)], dtype=object)
+            Mb = sx.arr(qp.matrix(cqu(U), wire_order=order))
+            Ms = [sx.arr(qp.matrix(cqu(U[b]), wire_order=order)) for b in range(2)]
+            return Mb, Ms, U
+
+        def consume(S, v, i):
+            Mb, Ms, U = v
+
+            def rp(model):
+                vals = model.get("vars", {})
+                Un = np.array([[[complex(vals.get(f"u{b}{r}{c}_re", 0.3 * (b + 1) - 0.2 * r), vals.get(f"u{b}{r}{c}_im", 0.1 * c - 0.4 * b)) for c in range(2)] for r in range(2)] for b in range(2)])
+                Mbn = np.asarray(qp.matrix(cqu(Un), wire_order=order), dtype=complex)
+                d = max(float(np.max(np.abs(Mbn[b] - np.asarray(qp.matrix(cqu(Un[b]), wire_order=order), dtype=complex)))) for b in range(2))
+                return d > 1e-9, {"set": sname, "key": key, "params": [], "observed": f"{name}: batched matrix differs from the per-element matrices by {d:.3g}"}
+
+            return [obl.prove(S, f"{name}: batched matrix == stack of per-element matrices (symbolic unitary entries)", Mb, np.stack(Ms), replay=rp, signature=f"{sname}:{key}", twin=False)]
+
+        try:
+            return obl.run_instance(name, build, consume)
+        except (TypeError, ValueError, AttributeError, IndexError) as e:
+            return [obl.unsupported(name, e)]
     inst = registry.by_key()[key]
     n = inst.nwires
     wires = list(range(n))
